@@ -51,7 +51,7 @@ import copy
 
 from .astutil import walk_no_nested
 
-FORMS = ('raw', 'names', 'vocab', 'vocab+proj', 'proj', 'once', 'all', 'helpers', 'vocab+proj+helpers', 'all+helpers', 'names+vocab+proj', 'names+all')
+FORMS = ('raw', 'names', 'canon', 'vocab', 'vocab+proj', 'proj', 'once', 'all', 'helpers', 'vocab+proj+helpers', 'all+helpers', 'names+vocab+proj', 'names+all')
 
 MUTATORS = {'append', 'extend', 'insert', 'remove', 'pop', 'popleft', 'popitem', 'clear', 'sort', 'reverse', 'update', 'add', 'discard',
             'setdefault', 'setflags', 'fill', 'resize', 'put', 'itemset', 'appendleft', 'write', 'send', 'close', '__setitem__',
@@ -411,14 +411,42 @@ def _search_loops_to_quantifiers(fn):
             b[i - 1:i + 1] = [new]
 
 
+def _counting_while_to_for(fn):
+    '''`i = 0` directly followed by `while True: BODY; i += 1` (no continue in BODY, i not otherwise bound there) is `for i in itertools.count(): BODY`.'''
+    for b in _blocks(fn):
+        k = 0
+        while k + 1 < len(b):
+            init, lp = b[k], b[k + 1]
+            k += 1
+            if not (isinstance(init, ast.Assign) and len(init.targets) == 1 and isinstance(init.targets[0], ast.Name) and isinstance(init.value, ast.Constant) and init.value.value == 0
+                    and isinstance(lp, ast.While) and isinstance(lp.test, ast.Constant) and lp.test.value is True and not lp.orelse and len(lp.body) >= 2):
+                continue
+            name = init.targets[0].id
+            last = lp.body[-1]
+            if not (isinstance(last, ast.AugAssign) and isinstance(last.op, ast.Add) and isinstance(last.target, ast.Name) and last.target.id == name
+                    and isinstance(last.value, ast.Constant) and last.value.value == 1):
+                continue
+            rest = lp.body[:-1]
+            if any(isinstance(n, ast.Continue) for st in rest for n in ast.walk(st)) or \
+                    any(isinstance(n, ast.Name) and n.id == name and isinstance(n.ctx, (ast.Store, ast.Del)) for st in rest for n in ast.walk(st)):
+                continue
+            new = ast.For(target=ast.Name(id=name, ctx=ast.Store()), iter=ast.parse('itertools.count()', mode='eval').body, body=rest, orelse=[])
+            ast.copy_location(new, lp)
+            ast.fix_missing_locations(new)
+            b[k - 1:k + 1] = [new]
+
+
 def _inline_function(fn, flags):
     '''One fixpoint of alias substitution in the own scope of fn.  flags: subset of {'vocab', 'proj', 'once', 'all'}.'''
     _split_tuple_assignments(fn)
     _loops_to_comprehensions(fn)
     _search_loops_to_quantifiers(fn)
+    _counting_while_to_for(fn)
     _list_then_sort(fn)
     while _collapse_conditional_definitions(fn):
         pass
+    if not (flags - {'canon'}):
+        return      # canonical spellings only, no substitution
     counts, special = _bindings(fn)     # invariant under the substitutions below (a substituted name disappears)
     nested = _nested_reads(fn)
     if not any(c == 1 for c in counts.values()):
@@ -601,17 +629,22 @@ def _helper_candidates(defs):
         if a.vararg or a.kwarg or a.kwonlyargs or a.posonlyargs or a.defaults:
             continue
         body = [s for s in d.body if not (isinstance(s, ast.Expr) and isinstance(s.value, ast.Constant) and isinstance(s.value.value, str))]
-        if not body or len(body) > 6:
+        if not body or len(body) > 15:
             continue
-        if any(isinstance(n, (ast.FunctionDef, ast.AsyncFunctionDef, ast.Lambda, ast.ClassDef, ast.For, ast.While, ast.Try, ast.With, ast.Yield,
-                              ast.YieldFrom, ast.Await, ast.Global, ast.Nonlocal)) for s in body for n in ast.walk(s)):
+        if any(isinstance(n, (ast.FunctionDef, ast.AsyncFunctionDef, ast.Lambda, ast.ClassDef, ast.Yield, ast.YieldFrom, ast.Await, ast.Global, ast.Nonlocal))
+               for s in body for n in ast.walk(s)):
             continue
         params = [x.arg for x in a.args]
         stored = {n.id for s in body for n in ast.walk(s) if isinstance(n, ast.Name) and isinstance(n.ctx, (ast.Store, ast.Del))}
+        if stored & set(params):
+            continue    # a parameter is re-bound: substitution of the argument would be wrong
+        returns = [n for s in body for n in ast.walk(s) if isinstance(n, ast.Return)]
         if len(body) == 1 and isinstance(body[0], ast.Return) and body[0].value is not None:
             out[d.name] = ('expr', d, params, body)
-        elif not any(isinstance(n, ast.Return) for s in body for n in ast.walk(s)) and not stored:
+        elif not returns:
             out[d.name] = ('stmts', d, params, body)
+        elif len(returns) == 1 and returns[0] is body[-1] and returns[0].value is not None:
+            out[d.name] = ('block', d, params, body)    # statements, then one final `return e`
     return out
 
 
@@ -762,19 +795,49 @@ def _expand_helpers(tree, only=None, hosts=None):
             i = 0
             while i < len(b):
                 s = b[i]
+                call, targets, form = None, None, None
                 if isinstance(s, ast.Expr) and isinstance(s.value, ast.Call):
-                    m = _match_call(s.value, helpers, clsname, ancestors, hostbound)
-                    if m and m[0] == 'stmts':
-                        kind, d, mapping, body = m
-                        news = []
-                        for st in body:
-                            st2 = _Subst(mapping).visit(copy.deepcopy(st))
-                            relocate(st2, s)
-                            news.append(st2)
-                        b[i:i + 1] = news
-                        used.add(d.name)
-                        i += len(news)
-                        continue
+                    call, form = s.value, 'expr-stmt'
+                elif isinstance(s, ast.Assign) and len(s.targets) == 1 and isinstance(s.value, ast.Call):
+                    call, targets, form = s.value, s.targets[0], 'assign'
+                elif isinstance(s, ast.Return) and isinstance(s.value, ast.Call):
+                    call, form = s.value, 'return'
+                m = _match_call(call, helpers, clsname, ancestors, set()) if call is not None else None
+                if m and (m[0] == 'stmts' and form == 'expr-stmt' or m[0] == 'block' and form in ('assign', 'return', 'expr-stmt')):
+                    kind, d, mapping, body = m
+                    tnames = {n.id for n in ast.walk(targets) if isinstance(n, ast.Name)} if targets is not None else set()
+                    hlocals = {n.id for st in body for n in ast.walk(st) if isinstance(n, ast.Name) and isinstance(n.ctx, (ast.Store, ast.Del))}
+                    free = {n.id for st in body for n in ast.walk(st) if isinstance(n, ast.Name)} - set(mapping) - hlocals
+                    if free & hostbound:
+                        i += 1
+                        continue    # a module-level name of the helper body would be captured by a local of the host
+                    rename = {nm: nm + '__h' for nm in hlocals if nm in hostbound and nm not in tnames}
+                    news = []
+                    for st in body:
+                        st2 = _Subst(mapping).visit(copy.deepcopy(st))
+                        for sub in ast.walk(st2):
+                            if isinstance(sub, ast.Name) and sub.id in rename:
+                                sub.id = rename[sub.id]
+                        relocate(st2, s)
+                        news.append(st2)
+                    if kind == 'block':
+                        ret = news.pop()
+                        if form == 'assign':
+                            if ast.unparse(targets) != ast.unparse(ret.value) and ast.unparse(targets) != '(' + ast.unparse(ret.value) + ')':
+                                a_ = ast.Assign(targets=[targets], value=ret.value)
+                                relocate(a_, s)
+                                ast.copy_location(a_, s)
+                                news.append(a_)
+                        elif form == 'return':
+                            news.append(ret)
+                        else:
+                            e_ = ast.Expr(value=ret.value)
+                            ast.copy_location(e_, s)
+                            news.append(e_)
+                    b[i:i + 1] = news or [ast.copy_location(ast.Pass(), s)]
+                    used.add(d.name)
+                    i += len(news) or 1
+                    continue
                 i += 1
         tr = Expr()
         fn.body = [tr.visit(s) for s in fn.body]
